@@ -22,6 +22,7 @@ pub const SUITES: &[Suite] = &[Suite { name: "C15", gen: nogen, exec: noexec }];
 pub const SUITES: &[Suite] = &[
     Suite { name: "C15", gen: real::gen, exec: real::exec },
     Suite { name: "C15xen", gen: nogen, exec: noexec },
+    Suite { name: "C15xu", gen: nogen, exec: noexec },
 ];
 
 /// Sum of the sizes of all mappings of the process except [heap] and [stack] (which move with
@@ -56,6 +57,29 @@ pub fn mapped_bytes() -> u64 {
         }
         total
     }
+}
+
+/// Permission column of the /proc/self/maps line that covers `addr`: r 1 | w 2 | x 4 | shared 8; 16 = no such line.
+/// This is what the kernel says about the mapping that was MADE, whatever the region object reports.
+pub fn maps_perms(addr: u64) -> u64 {
+    let text = std::fs::read_to_string("/proc/self/maps").unwrap_or_default();
+    for line in text.lines() {
+        let mut it = line.split_whitespace();
+        let (range, perms) = match (it.next(), it.next()) {
+            (Some(r), Some(p)) => (r, p.as_bytes()),
+            _ => continue,
+        };
+        let mut ab = range.splitn(2, '-');
+        let a = u64::from_str_radix(ab.next().unwrap_or(""), 16).unwrap_or(u64::MAX);
+        let b = u64::from_str_radix(ab.next().unwrap_or(""), 16).unwrap_or(0);
+        if a <= addr && addr < b && perms.len() >= 4 {
+            return (perms[0] == b'r') as u64
+                | ((perms[1] == b'w') as u64) << 1
+                | ((perms[2] == b'x') as u64) << 2
+                | ((perms[3] == b's') as u64) << 3;
+        }
+    }
+    16
 }
 
 /// memfd of the given length (sparse); None if the kernel refuses that length.
